@@ -86,6 +86,7 @@ func (e *bEngine) symVal(st *bState, name string, t types.Type) bVal {
 		return bOpaque{typ: t, name: name}
 	case *types.Pointer:
 		id := e.reg.idFor(name)
+		e.reg.meta[id] = bObjMeta{name: name, typ: u.Elem()}
 		if _, ok := st.objs[id]; !ok {
 			o := &bObject{id: id, typ: u.Elem(), sym: name}
 			if _, isStruct := u.Elem().Underlying().(*types.Struct); isStruct {
@@ -102,6 +103,7 @@ func (e *bEngine) symVal(st *bState, name string, t types.Type) bVal {
 		return &bStruct{typ: t, sym: name, f: map[string]bVal{}}
 	case *types.Slice:
 		id := e.reg.idFor(name + "[]")
+		e.reg.meta[id] = bObjMeta{name: name, typ: u.Elem(), arr: true}
 		if _, ok := st.objs[id]; !ok {
 			st.objs[id] = &bObject{id: id, typ: u.Elem(), arr: true, sym: name, elems: map[string]bVal{}}
 		}
@@ -190,6 +192,31 @@ func (e *bEngine) elem(st *bState, o *bObject, key string) bVal {
 	return v
 }
 
+// obj returns the object with the given id in this state, re-creating a symbolic input object
+// that this path has not touched yet.
+func (e *bEngine) obj(st *bState, id int) *bObject {
+	if o, ok := st.objs[id]; ok {
+		return o
+	}
+	m, ok := e.reg.meta[id]
+	if !ok {
+		panic(verr("dangling object %d", id))
+	}
+	if m.arr {
+		st.objs[id] = &bObject{id: id, typ: m.typ, arr: true, sym: m.name, elems: map[string]bVal{}}
+	} else {
+		o := &bObject{id: id, typ: m.typ, sym: m.name}
+		switch m.typ.Underlying().(type) {
+		case *types.Struct, *types.Array:
+			o.root = &bStruct{typ: m.typ, sym: m.name, f: map[string]bVal{}}
+		default:
+			o.root = e.symVal(st, m.name+".*", m.typ)
+		}
+		st.objs[id] = o
+	}
+	return st.objs[id]
+}
+
 func splitPath(p string) []string {
 	if p == "" {
 		return nil
@@ -201,10 +228,7 @@ func (e *bEngine) loadAt(st *bState, p bPtr) bVal {
 	if p.obj == 0 {
 		panic(bPathEnd{"nil pointer dereference"})
 	}
-	o := st.objs[p.obj]
-	if o == nil {
-		panic(verr("dangling object %d", p.obj))
-	}
+	o := e.obj(st, p.obj)
 	comps := splitPath(p.path)
 	var cur bVal
 	if o.arr {
@@ -230,7 +254,7 @@ func (e *bEngine) storeAt(st *bState, p bPtr, v bVal) {
 	if p.obj == 0 {
 		panic(bPathEnd{"nil pointer dereference"})
 	}
-	o := st.objs[p.obj]
+	o := e.obj(st, p.obj)
 	comps := splitPath(p.path)
 	v = cloneVal(v)
 	if o.arr {
@@ -418,6 +442,17 @@ func (e *bEngine) refEq(x, y bVal) (*Term, bool) {
 	k2, n2 := isNil(y)
 	if k1 && k2 && (n1 || n2) {
 		return Bool(n1 == n2), true
+	}
+	// an interface value of unknown dynamic type compared with nil: its nil-ness is a symbolic boolean
+	if k1 && n1 {
+		if iv, ok := y.(*bIface); ok && iv.sym != "" {
+			return Var(iv.sym+".isnil", SBool), true
+		}
+	}
+	if k2 && n2 {
+		if iv, ok := x.(*bIface); ok && iv.sym != "" {
+			return Var(iv.sym+".isnil", SBool), true
+		}
 	}
 	return nil, false
 }
